@@ -213,7 +213,7 @@ def intro_line(f):
 HEADER = "/-! GENERATED by tools/gen_subst.py — C06, parser half: %s -/"
 OPTS = ["set_option linter.unusedVariables false", "set_option linter.unusedSectionVars false", "set_option linter.unusedSimpArgs false",
         "set_option maxHeartbeats 4000000", "open Lex PM Ast", "namespace PMQ", "variable [S : PaySet]", ""]
-CLOSE = "(try simp only [strEq_fold] at h h') <;> (try dsimp only at h h') <;> split_run <;> qel_sync <;> split_runq <;> qe_norm <;> qel_sync <;> qe_norm <;> "
+CLOSE = "(try dsimp only at h h') <;> split_run <;> qel_sync <;> split_runq <;> qe_norm <;> qel_sync <;> qe_norm <;> (try simp only [strEq_fold] at *) <;> "
 
 # ------------------------------------------------------------------------------------------------ helpers outside the block
 HAND = {"matchSeq", "matchKw", "closed", "eachClosed", "pyInt", "asInt", "splitName"}     # ParseSubst3/3b (hand) or used only through token facts
